@@ -312,6 +312,12 @@ class World:
             ob = self.insts[ref[1] % len(self.insts)]
             mro = type(ob).__mro__[:-1]
             return super(mro[ref[2] % len(mro)], ob)
+        if k == 'S':
+            # an instance of a user-defined subclass of super: isinstance()
+            # in the reference, a type check in the accelerator
+            ob = self.insts[ref[1] % len(self.insts)]
+            mro = type(ob).__mro__[:-1]
+            return _SubSuper(mro[ref[2] % len(mro)], ob)
         if k == 'x':
             return self.oddobj(ref[1])
         if k == 'n':
@@ -362,6 +368,10 @@ class World:
         if isinstance(v, super):
             return 'super'
         return '<%s>' % type(v).__name__
+
+
+class _SubSuper(super):
+    pass
 
 
 def run_program(prog):
